@@ -81,7 +81,7 @@ fn main() {
     cov.evaluations = cov.transitions;
     cov.traces_validated = g("api_calls");
     cov.distinct_nontrivial = g("cases_with_flags");
-    cov.rule = format!("keywords obtained by inspect.signature: {}; clap metadata dumped from Cli::command() of the tree under test; every keyword singly with None, False and typed valid values (ints 0 and 3, both booleans, every possible value of enumerated options), every pair of keywords with valid values{}; each call runs in a prepared git repository (tag v1.2.3, one commit ahead) with the argv captured at subprocess.run; oracle: None/False add nothing, every emitted flag exists for the sub-command with matching arity, the return value equals the stripped stdout of the binary run with an independently built argv (keyword -> --long-name from the clap dump + exception table), a failing command raises RuntimeError. non-trivial = cases that emit at least one flag", res["keywords"], if ctx.quick() { "" } else { ", every triple for flow/render/check and every version triple containing source=none" });
+    cov.rule = format!("keywords obtained by inspect.signature: {}; clap metadata dumped from Cli::command() of the tree under test; every keyword singly with None, False and typed valid values (ints 0 and 3, both booleans, every possible value of enumerated options), every pair of keywords with valid values{}; each call runs in a prepared git repository (tag v1.2.3, one commit ahead) with the argv captured at subprocess.run; oracle: None/False add nothing, every emitted flag exists for the sub-command with matching arity, the return value equals the stripped stdout of the binary run with an independently built argv (keyword -> --long-name from the clap dump + exception table), a failing command raises RuntimeError; 10 calls repeated under 18 settings of the caller's environment (GIT_DIR / GIT_WORK_TREE / GIT_INDEX_FILE / GIT_CONFIG_* redirections, PATH without git, RUST_LOG, TZ, locale, HOME, CI variables), the independent run inheriting the same environment. non-trivial = cases that emit at least one flag", res["keywords"], if ctx.quick() { "" } else { ", every triple for flow/render/check and every version triple containing source=none" });
     cov.exhaustive = true;
     cov.samples = res["samples"].as_array().cloned().unwrap_or_else(|| vec![json!("none")]);
     cov.set("clause_counts", c.clone());
